@@ -288,7 +288,11 @@ def run_case(case):
         other_axes_kept(res, list(t), what)
         cl.add("like")
     else:
-        dspec = {"vars": [["main", spec]] + [["o%d" % j, o] for j, o in enumerate(case["others"])], "attrs": {"title": "t"}}
+        # (in half of the cases the interpolated variable is NAMED like the dimension it is interpolated along: ds[d] is that variable, not the labels)
+        mainname = d if (len(new) + len(case["others"])) % 2 == 0 else "main"
+        if mainname == d:
+            cl.add("dataset:variable-named-like-the-dimension")
+        dspec = {"vars": [[mainname, spec]] + [["o%d" % j, o] for j, o in enumerate(case["others"])], "attrs": {"title": "t"}}
         ds = core.build_dataset(dspec)
         axis = d if case["axis_form"] == "name" else (list(ds.dims).index(d) - (len(ds.dims) if case["axis_form"] == "neg" else 0))
         if case.get("rehearse"):
